@@ -94,9 +94,10 @@ def canon(obj):
     if isinstance(obj, (list, tuple)):
         return [canon(v) for v in obj]
     if isinstance(obj, torch.Tensor):
-        return [round(float(v), 6) for v in obj.detach().flatten().tolist()]
+        return [canon(float(v)) for v in obj.detach().flatten().tolist()]
     if isinstance(obj, float):
-        return round(obj, 6)
+        # NaN / inf are written as strings so that two identical runs compare equal (NaN != NaN)
+        return round(obj, 6) if obj == obj and abs(obj) != float('inf') else str(obj)
     if isinstance(obj, (int, str, bool)) or obj is None:
         return obj
     return str(obj)
